@@ -33,7 +33,7 @@ def csum(items):
     s = 0
     for x in items:
         s = s + x
-    return (256 - (s & 0xFF)) & 0xFF
+    return (0 - s) & 0xFF
 
 
 def pn53x_frame(body):
